@@ -1,0 +1,94 @@
+//go:build verif
+
+// Contracts for package simpledb, read by the govc verifier (/verif). Comments only.
+package simpledb
+
+// ---------------------------------------------------------------------------------------------------
+// RWMemstore: the write store wins, the read store is consulted only for keys the write store does not know.
+
+//@ func (*RWMemstore).Get
+//@   props C01 C17 C14
+//@   requires c.writeStore != nil && c.readStore != nil
+//@   ensures [write-present] mst(c.writeStore, content(key)) == 2 ==> r1 == nil && r0 === mvl(c.writeStore, content(key))
+//@   ensures [write-tomb] mst(c.writeStore, content(key)) == 1 ==> r1 == memstore.KeyTombstoned && isnil(r0)
+//@   ensures [read-present] mst(c.writeStore, content(key)) == 0 && mst(c.readStore, content(key)) == 2 ==> r1 == nil && r0 === mvl(c.readStore, content(key))
+//@   ensures [read-tomb] mst(c.writeStore, content(key)) == 0 && mst(c.readStore, content(key)) == 1 ==> r1 == memstore.KeyTombstoned && isnil(r0)
+//@   ensures [absent] mst(c.writeStore, content(key)) == 0 && mst(c.readStore, content(key)) == 0 ==> r1 == memstore.KeyNotFound && isnil(r0)
+//@   modifies nothing
+
+//@ func (*RWMemstore).Upsert
+//@   props C01 C17 C14
+//@   requires c.writeStore != nil
+//@   ensures [nil-key] isnil(key) ==> r0 == memstore.KeyNil
+//@   ensures [nil-value] !isnil(key) && isnil(value) ==> r0 == memstore.ValueNil
+//@   ensures [rejected-no-effect] r0 != nil ==> mst(c.writeStore, content(key)) == old(mst(c.writeStore, content(key))) && mvl(c.writeStore, content(key)) === old(mvl(c.writeStore, content(key)))
+//@   ensures [stored] !isnil(key) && !isnil(value) ==> r0 == nil && mst(c.writeStore, content(key)) == 2 && mvl(c.writeStore, content(key)) === value
+//@   modifies mst(c.writeStore, content(key)), mvl(c.writeStore, content(key))
+
+//@ func (*RWMemstore).Tombstone
+//@   props C01 C17 C14
+//@   requires c.writeStore != nil
+//@   ensures r0 == nil && mst(c.writeStore, content(key)) == 1
+//@   modifies mst(c.writeStore, content(key)), mvl(c.writeStore, content(key))
+
+//@ func (*RWMemstore).Delete
+//@   props C01 C17 C14
+//@   requires c.writeStore != nil
+//@   ensures [tombstoned] r0 == nil && mst(c.writeStore, content(key)) == 1
+//@   modifies mst(c.writeStore, content(key)), mvl(c.writeStore, content(key))
+
+//@ func (*RWMemstore).EstimatedSizeInBytes
+//@   props C01
+//@   requires c.writeStore != nil
+//@   modifies nothing
+
+// ---------------------------------------------------------------------------------------------------
+// DB write path (C17, C02, C13, C01).
+// dbRot(db) counts calls of rotateWalAndFlushMemstore.
+
+//@ ghost dbRot(db Ref) Int
+
+//@ func (*DB).rotateWalAndFlushMemstore
+//@   props C01 C13
+//@   requires db.wal != nil && db.memStore != nil
+//@   ensures dbRot(db) == old(dbRot(db)) + 1
+//@   ensures walCount(db.wal) == old(walCount(db.wal))
+//@   modifies dbRot(db), walRot(db.wal), db.memStore
+
+//@ func (*DB).PutBytes
+//@   props C17 C02 C13 C01
+//@   replay db_rejected_calls
+//@   requires db.rwLock != nil && db.wal != nil && db.memStore != nil && db.memStore.writeStore != nil && db.memStore.readStore != nil
+//@   ensures [C17:rejects-empty] len(keyBytes) == 0 || len(valBytes) == 0 ==> r0 == ErrEmptyKeyValue
+//@   ensures [C17:rejected-is-not-logged] len(keyBytes) == 0 || len(valBytes) == 0 ==> walCount(db.wal) == old(walCount(db.wal))
+//@   ensures [C17:not-open] !old(db.open) ==> r0 != nil && walCount(db.wal) == old(walCount(db.wal))
+//@   ensures [C17:closed] old(db.closed) ==> r0 != nil && walCount(db.wal) == old(walCount(db.wal))
+//@   ensures [at-most-one-append] walCount(db.wal) <= old(walCount(db.wal)) + 1
+//@   ensures [ack-implies-logged] r0 == nil ==> walCount(db.wal) == old(walCount(db.wal)) + 1 && walErr(db.wal, old(walCount(db.wal))) == nil &&
+//@           (walSync(db.wal, old(walCount(db.wal))) <==> !db.enableAsyncWAL)
+//@   ensures [error-means-nothing-durable] r0 != nil && dbRot(db) == old(dbRot(db)) ==>
+//@           walCount(db.wal) == old(walCount(db.wal)) || walErr(db.wal, old(walCount(db.wal))) != nil
+//@   ensures [error-has-no-effect] r0 != nil && dbRot(db) == old(dbRot(db)) ==> db.memStore == old(db.memStore) &&
+//@           mst(db.memStore.writeStore, content(keyBytes)) == old(mst(db.memStore.writeStore, content(keyBytes))) &&
+//@           mvl(db.memStore.writeStore, content(keyBytes)) === old(mvl(db.memStore.writeStore, content(keyBytes)))
+//@   ensures [ack-implies-applied] r0 == nil && dbRot(db) == old(dbRot(db)) ==>
+//@           mst(db.memStore.writeStore, content(keyBytes)) == 2 && mvl(db.memStore.writeStore, content(keyBytes)) === valBytes
+//@   call 0 of Upsert: assert [C17,C02,C13:logged-before-applied] walCount(db.wal) == old(walCount(db.wal)) + 1 && walErr(db.wal, old(walCount(db.wal))) == nil
+//@   modifies walCount(db.wal), mst(old(db.memStore.writeStore), content(keyBytes)), mvl(old(db.memStore.writeStore), content(keyBytes)), dbRot(db), walRot(db.wal), db.memStore
+
+//@ func (*DB).DeleteBytes
+//@   props C17 C02 C13 C01
+//@   replay db_rejected_calls
+//@   requires db.rwLock != nil && db.wal != nil && db.memStore != nil && db.memStore.writeStore != nil && db.memStore.readStore != nil
+//@   ensures [C17:not-open] !old(db.open) ==> r0 != nil && walCount(db.wal) == old(walCount(db.wal))
+//@   ensures [C17:closed] old(db.closed) ==> r0 != nil && walCount(db.wal) == old(walCount(db.wal))
+//@   ensures [at-most-one-append] walCount(db.wal) <= old(walCount(db.wal)) + 1
+//@   ensures [ack-implies-logged] r0 == nil ==> walCount(db.wal) == old(walCount(db.wal)) + 1 && walErr(db.wal, old(walCount(db.wal))) == nil &&
+//@           (walSync(db.wal, old(walCount(db.wal))) <==> !db.enableAsyncWAL)
+//@   ensures [error-means-nothing-durable] r0 != nil ==> walCount(db.wal) == old(walCount(db.wal)) || walErr(db.wal, old(walCount(db.wal))) != nil
+//@   ensures [error-has-no-effect] r0 != nil ==>
+//@           mst(db.memStore.writeStore, content(byteKey)) == old(mst(db.memStore.writeStore, content(byteKey))) &&
+//@           mvl(db.memStore.writeStore, content(byteKey)) === old(mvl(db.memStore.writeStore, content(byteKey)))
+//@   ensures [ack-implies-applied] r0 == nil ==> mst(db.memStore.writeStore, content(byteKey)) == 1
+//@   call 0 of Delete: assert [C17,C02,C13:logged-before-applied] walCount(db.wal) == old(walCount(db.wal)) + 1 && walErr(db.wal, old(walCount(db.wal))) == nil
+//@   modifies walCount(db.wal), mst(db.memStore.writeStore, content(byteKey)), mvl(db.memStore.writeStore, content(byteKey))
